@@ -38,6 +38,7 @@ type hist struct {
 	d       *drive.Direct
 	store   *fsess.Store
 	vs      *vstore.Store
+	xr      *gen.Rand // extra stream of generated histories (nil elsewhere)
 	sv      storeView // the injected storage, whichever it is (nil: bundled memory storage)
 	clients []*client
 	cur     *script
@@ -72,6 +73,7 @@ func newHist(e *ev.Env, c *ev.Case, cfg cfgT, kinds []string, tag string) *hist 
 		KeyLookup:       cfg.Source + ":" + cfg.Name,
 		IdleTimeout:     cfg.Idle,
 		AbsoluteTimeout: cfg.Abs,
+		ErrorHandler:    quietErrorHandler,
 		KeyGenerator: func() string {
 			h.nid++
 			id := styledID(cfg.IDs, h.nid, h.tag)
@@ -155,6 +157,18 @@ func (h *hist) drive(dr *drive.Req) (*drive.Resp, string) {
 	return h.d.DoCtx(h.conns[k], dr), fmt.Sprint(k + 1)
 }
 
+// quietErrorHandler answers 500 like DefaultErrorHandler, without logging.
+func quietErrorHandler(c fiber.Ctx, _ error) { _ = c.SendStatus(fiber.StatusInternalServerError) }
+
+// altSources: the sources other than the configured one through which an id must NOT be taken.
+// (query configured + cookie: the server itself hands the id out in a cookie of that name, so
+// honouring it is not judged.)
+var altSources = map[string][]string{
+	"cookie": {"header", "query"},
+	"header": {"cookie", "query"},
+	"query":  {"header"},
+}
+
 func (h *hist) close() {
 	if !h.cfg.VStore && h.store != nil && h.store.Storage != nil {
 		_ = h.store.Storage.Close() // stops the gc goroutine of the bundled memory storage
@@ -204,7 +218,18 @@ func (h *hist) buildReq(rq *request) *drive.Req {
 		}
 	}
 	if rq.Cookie != "" {
-		dr.Hdr = append(dr.Hdr, drive.H{K: "Cookie", V: h.cfg.Name + "=" + rq.Cookie})
+		switch rq.AltSrc {
+		case "header":
+			dr.Hdr = append(dr.Hdr, drive.H{K: h.cfg.Name, V: rq.Cookie})
+		case "query":
+			sep := "?"
+			if strings.Contains(dr.URI, "?") {
+				sep = "&"
+			}
+			dr.URI += sep + h.cfg.Name + "=" + url.QueryEscape(rq.Cookie)
+		default:
+			dr.Hdr = append(dr.Hdr, drive.H{K: "Cookie", V: h.cfg.Name + "=" + rq.Cookie})
+		}
 	}
 	if h.name != "" {
 		dr.Hdr = append(dr.Hdr, drive.H{K: "X-Script", V: h.name})
@@ -284,7 +309,11 @@ func (h *hist) do(rq *request) bool {
 	var resp *drive.Resp
 	line := fmt.Sprintf("%s c%d(%s) %s present=%s:%s", stamp(w.now), rq.Client, cl.kind, map[bool]string{true: "mw", false: "store"}[rq.MW], rq.Class, short(rq.Presented))
 	if rq.Cookie != "" {
-		line += " +cookie=" + rq.Cookie
+		src := rq.AltSrc
+		if src == "" {
+			src = "cookie"
+		}
+		line += " +" + src + "=" + short(rq.Cookie)
 	}
 	ops := make([]string, len(rq.Ops))
 	for i, o := range rq.Ops {
@@ -324,7 +353,10 @@ func (h *hist) do(rq *request) bool {
 		}
 		e.Stat("window-not-judged|"+preWhy+"|"+seenAlive, 1)
 	}
-	if resp.Status != 200 && !j.stop {
+	if j.saveFailed {
+		e.Stat("requests-with-failed-save(answer not judged)", 1)
+	}
+	if resp.Status != 200 && !j.stop && !j.saveFailed {
 		j.fail(&vio{"api|status-" + fmt.Sprint(resp.Status), "handler response status"})
 	}
 	j.otherName = h.otherName
@@ -676,7 +708,11 @@ func (h *hist) genOps(r *gen.Rand, ci int, mw bool, presented string, n int) []o
 		case 0:
 			ops = append(ops, op{K: "get", Key: gen.Pick(r, keyPool)})
 		case 1:
-			ops = append(ops, op{K: "set", Key: gen.Pick(r, keyPool), Val: val()})
+			o := op{K: "set", Key: gen.Pick(r, keyPool), Val: val()}
+			if h.xr != nil && h.xr.Chance(1, 14) {
+				o.Val = badVal // a value of a type nobody registered: the session cannot be saved
+			}
+			ops = append(ops, o)
 		case 2:
 			ops = append(ops, op{K: "del", Key: gen.Pick(r, keyPool)})
 		case 3:
@@ -833,6 +869,7 @@ func runGenerated(e *ev.Env, c *ev.Case) {
 	}
 	h := newHist(e, c, cfg, genKinds(r), r.StringFrom("0123456789abcdef", 6))
 	defer h.close()
+	h.xr = xr
 	if n := xr.PickW(4, 3, 3); n > 0 {
 		h.useConns(n, xr.Split())
 		e.Stat("histories-with-reused-requestctx", 1)
@@ -852,6 +889,18 @@ func runGenerated(e *ev.Env, c *ev.Case) {
 		h.advance(r, id)
 		mw := apiBias == 0 || (apiBias == 2 && r.Bool())
 		rq := &request{Client: ci, MW: mw, Presented: id, Class: class}
+		if cl := h.clients[ci]; xr.Chance(1, 9) {
+			// an id through a source that is not the configured one: it must not count
+			rq.AltSrc = gen.Pick(xr, altSources[cfg.Source])
+			if len(cl.held) > 0 && xr.Chance(3, 4) {
+				rq.Cookie = gen.Pick(xr, cl.held)
+			} else {
+				rq.Cookie = xr.StringFrom(forgeAlph, xr.Range(1, 30))
+			}
+			if rq.Cookie == rq.Presented {
+				rq.Cookie, rq.AltSrc = "", ""
+			}
+		}
 		if xr.Chance(1, 7) {
 			// both APIs in ONE request: a handler in front of the middleware uses the store API
 			cl := h.clients[ci]
